@@ -185,6 +185,9 @@ impl Server {
             .map(|r| self.execs[r].id)
             .collect()
     }
+    pub fn deadline_of_live(&self, id: u64) -> Option<u128> {
+        (0..self.execs.len()).filter(|r| self.exec_live(*r) && self.execs[*r].id == id).map(|r| self.execs[r].deadline_ns).min()
+    }
     pub fn live_ids(&self) -> Vec<u64> {
         (0..self.execs.len()).filter(|r| self.exec_live(*r)).map(|r| self.execs[r].id).collect()
     }
@@ -599,6 +602,8 @@ struct Gen {
     cancelled: Vec<u64>,
     forced: Option<Op>,
     v2_done: bool,
+    /// the clock stays below this (ns): earliest deadline of a request a duplicate was injected for
+    pin: u128,
 }
 
 fn gen_op(rng: &mut Rng, sv: &Server, g: &mut Gen, p: &Params) -> Op {
@@ -643,9 +648,20 @@ fn gen_op(rng: &mut Rng, sv: &Server, g: &mut Gen, p: &Params) -> Op {
             // of a completed (answered) request.  An id is not re-used after its request was cancelled,
             // expired or abandoned: a stale buffered response could then answer the new request, which
             // is outside the properties' quantifiers (DESIGN.md, C04 scope note).
-            let mut reuse: Vec<u64> = sv.stable_ids(g.now).into_iter().filter(|i| !g.cancelled.contains(i)).collect();
+            let stable: Vec<u64> = sv.stable_ids(g.now).into_iter().filter(|i| !g.cancelled.contains(i)).collect();
+            let mut reuse = stable.clone();
             reuse.extend(g.answered.iter().copied().filter(|i| !sv.live_ids().contains(i)));
             let id = if !reuse.is_empty() && rng.chance(1, 5) { *rng.pick(&reuse) } else { g.nreq * 3 };
+            if stable.contains(&id) {
+                // a duplicate of an in-flight request: the clock must not pass the original's deadline while the
+                // duplicate may still be unread (it would then be accepted as a new request: re-use after expiry)
+                if let Some(d) = sv.deadline_of_live(id) {
+                    g.pin = g.pin.min(d);
+                }
+            } else {
+                // an answered id is re-used once (until it is answered again)
+                g.answered.retain(|i| *i != id);
+            }
             g.ids.push(id);
             let rel = *rng.pick(&[0u64, 300_000, 2_000_000, 20_000_000, 500_000_000, 3_600_000_000_000]);
             let sub = *rng.pick(&[0u64, 1, 999_999, 400_000]);
@@ -696,6 +712,8 @@ fn gen_op(rng: &mut Rng, sv: &Server, g: &mut Gen, p: &Params) -> Op {
             let step = step.max(1);
             // stay below 2^35 ms of virtual time: beyond it an idle timer wheel's range is exhausted (known finding)
             let step = if g.now + step > crate::cli::MAX_VIRTUAL_NS { 1_000_000 } else { step };
+            // … and a second short of the deadline of a request a duplicate was injected for
+            let step = if (g.now + step) as u128 + 1_000_000_000 > g.pin { 1 } else { step };
             g.now += step;
             Op::Advance(step)
         }
@@ -725,7 +743,7 @@ pub fn run_script(out: &mut Out, idx: u64, p: &Params, rng: &mut Rng, script: Op
     simt::take_log();
     let _sub = crate::cli::install_subscriber(p.sub);
     let mut sv = Server::new("s0", p.limit, p.resp, p.cap, p.coupled);
-    let mut g = Gen { now: 0, nreq: 0, ids: vec![], deadlines: vec![], answered: vec![], cancelled: vec![], forced: None, v2_done: false };
+    let mut g = Gen { now: 0, nreq: 0, ids: vec![], deadlines: vec![], answered: vec![], cancelled: vec![], forced: None, v2_done: false, pin: u128::MAX };
     let mut i = 0usize;
     loop {
         let op = match script {
